@@ -371,6 +371,59 @@ theorem quadratic_degenerate_two_abscissae (pts : List (ℚ × ℚ)) (hne : pts 
 example : quadratic_fitting (fit_of [(1, 2), (3, 5), (1, 4), (3, 0), (3, 7)]) = .error .zeroDivisionError := by
   decide +kernel
 
+/-- Linearly dependent basis functions: if `f2 = λ f0 + μ f1` on the abscissae and both `f1`, `f2` are present for the
+    code (`Σ f_k² ≥ TOL`), the general fit raises ZeroDivisionError (the Gram determinant is exactly zero). -/
+theorem general_dependent_columns (pts : List (ℚ × ℚ)) (f0 f1 f2 : ℚ → ℚ) (lam mu : ℚ)
+    (hdep : ∀ p ∈ pts, f2 p.1 = lam * f0 p.1 + mu * f1 p.1)
+    (hf1 : TOL ≤ |S pts (fun p => f1 p.1 * f1 p.1)|) (hf2 : TOL ≤ |S pts (fun p => f2 p.1 * f2 p.1)|) :
+    general_fitting (fit_of pts) f0 f1 f2 = .error .zeroDivisionError := by
+  unfold general_fitting
+  rw [(fit_of_fields pts).1, (fit_of_fields pts).2.1, List.map_map, List.map_map, List.map_map]
+  rw [general_cols_eq pts (f0 ∘ Prod.fst) (f1 ∘ Prod.fst) (f2 ∘ Prod.fst) Prod.snd]
+  simp only [Function.comp]
+  have c1 : ¬ ((|S pts (fun p => f1 p.1 * f1 p.1)| < TOL ∧ |S pts (fun p => f2 p.1 * f2 p.1)| < TOL) ∧
+      TOL ≤ |S pts (fun p => f0 p.1 * f0 p.1)|) := fun h => absurd h.1.1 (not_lt.mpr hf1)
+  have c2 : ¬ ((|S pts (fun p => f2 p.1 * f2 p.1)| < TOL ∧ TOL ≤ |S pts (fun p => f0 p.1 * f0 p.1)|) ∧
+      TOL ≤ |S pts (fun p => f1 p.1 * f1 p.1)|) := fun h => absurd h.1.1 (not_lt.mpr hf2)
+  rw [if_neg c1, if_neg c2]
+  split_ifs with h3 h4
+  · rfl
+  · rfl
+  · exfalso
+    apply h4
+    -- the sums involving f2 in terms of those of f0, f1
+    have q : S pts (fun p => f0 p.1 * f2 p.1)
+        = lam * S pts (fun p => f0 p.1 * f0 p.1) + mu * S pts (fun p => f0 p.1 * f1 p.1) := by
+      rw [S_congr (g := fun p => (lam * f0 p.1 + mu * f1 p.1) * f0 p.1) (fun p hp => by rw [hdep p hp]; ring), S_lin2]
+      congr 2
+      exact S_congr (fun p _ => mul_comm _ _)
+    have s' : S pts (fun p => f1 p.1 * f2 p.1)
+        = lam * S pts (fun p => f0 p.1 * f1 p.1) + mu * S pts (fun p => f1 p.1 * f1 p.1) := by
+      rw [S_congr (g := fun p => (lam * f0 p.1 + mu * f1 p.1) * f1 p.1) (fun p hp => by rw [hdep p hp]; ring), S_lin2]
+    have t : S pts (fun p => f2 p.1 * f2 p.1)
+        = lam * S pts (fun p => f0 p.1 * f2 p.1) + mu * S pts (fun p => f1 p.1 * f2 p.1) := by
+      rw [S_congr (g := fun p => (lam * f0 p.1 + mu * f1 p.1) * f2 p.1) (fun p hp => by rw [hdep p hp]), S_lin2]
+    rw [t, q, s']
+    have : S pts (fun p => f0 p.1 * f0 p.1) * S pts (fun p => f1 p.1 * f1 p.1) *
+          (lam * (lam * S pts (fun p => f0 p.1 * f0 p.1) + mu * S pts (fun p => f0 p.1 * f1 p.1))
+            + mu * (lam * S pts (fun p => f0 p.1 * f1 p.1) + mu * S pts (fun p => f1 p.1 * f1 p.1)))
+        + 2 * S pts (fun p => f0 p.1 * f1 p.1)
+          * (lam * S pts (fun p => f0 p.1 * f0 p.1) + mu * S pts (fun p => f0 p.1 * f1 p.1))
+          * (lam * S pts (fun p => f0 p.1 * f1 p.1) + mu * S pts (fun p => f1 p.1 * f1 p.1))
+        - S pts (fun p => f0 p.1 * f0 p.1)
+          * (lam * S pts (fun p => f0 p.1 * f1 p.1) + mu * S pts (fun p => f1 p.1 * f1 p.1))
+          * (lam * S pts (fun p => f0 p.1 * f1 p.1) + mu * S pts (fun p => f1 p.1 * f1 p.1))
+        - S pts (fun p => f1 p.1 * f1 p.1)
+          * (lam * S pts (fun p => f0 p.1 * f0 p.1) + mu * S pts (fun p => f0 p.1 * f1 p.1))
+          * (lam * S pts (fun p => f0 p.1 * f0 p.1) + mu * S pts (fun p => f0 p.1 * f1 p.1))
+        - (lam * (lam * S pts (fun p => f0 p.1 * f0 p.1) + mu * S pts (fun p => f0 p.1 * f1 p.1))
+            + mu * (lam * S pts (fun p => f0 p.1 * f1 p.1) + mu * S pts (fun p => f1 p.1 * f1 p.1)))
+          * S pts (fun p => f0 p.1 * f1 p.1) * S pts (fun p => f0 p.1 * f1 p.1) = 0 := by ring
+    rw [this, abs_zero]; exact TOL_pos
+
+example : general_fitting (fit_of [(1, 2), (2, 5), (3, 4), (5, 0)]) (fun x => x) (fun _ => 1) (fun x => 2 * x + 3)
+    = .error .zeroDivisionError := by decide +kernel
+
 /-! ### Correlation coefficient (real-number model: `sqrt`) -/
 section correlation
 open Pymeeus.Refine
